@@ -1,11 +1,15 @@
 """C13 — a schema object can be reused indefinitely: loads neither depend on nor alter it"""
+import os
+
 from .. import cfggen, cfgrun, cfgstream, core, ovgen, pkggen, schemafam as F
 from ..sexp import enc
 
 RULE = ("per generated schema a sequence of operations {load valid text, load invalid text (syntax / matching / conversion / "
-        "section-datatype fault), load with %import of a generated component, load with overrides, mutate every list and dict "
-        "reachable from the returned configuration} against ONE schema object; each load is repeated against a freshly loaded "
-        "copy of the schema and the outcomes compared; the structural digest of the reused schema (types, implementers, keys, "
+        "section-datatype fault), load with %import of a generated component (an implementer of one of the schema's abstract types: "
+        "imported only, imported and its section type used, a component that registers the implementer and then fails), load of a "
+        "text that uses the imported section type WITHOUT the %import line (after an importing load in most such histories), load "
+        "with overrides, mutate every list and dict reachable from the returned configuration} against ONE schema object; each "
+        "load is repeated against a freshly loaded copy of the schema and the outcomes compared; the structural digest of the reused schema (types, implementers, keys, "
         "defaults) is compared with its initial value after every operation. non-trivial = sequence with >= 2 loads; distinct "
         "by (schema, sequence)")
 
@@ -35,6 +39,23 @@ def mutate(v, depth=0):
     return n
 
 
+KINDS = ["valid", "valid", "invalid", "import", "overrides", "mutate", "repeat", "sparse"]
+
+
+def _uses_type(items, tyname):
+    return any(it[0] == "sect" and (it[1].lower() == tyname or _uses_type(it[3], tyname)) for it in items)
+
+
+def _items_using(rng, elab_ext, tyname):
+    """a conforming item list over the vocabulary of the schema extended by the component, if possible one in which a
+    section of the imported type occurs (at any depth)"""
+    for _ in range(8):
+        items = cfggen.gen_items(rng, elab_ext, None, 3, pfill=0.9)
+        if _uses_type(items, tyname):
+            break
+    return items
+
+
 def sdigest(schema):
     """the structural digest as text; a schema object whose description can no longer even be read (a default that is no
     longer a ValueInfo, ...) has certainly changed"""
@@ -53,7 +74,7 @@ def run(ctx):
     obligations, discharged, names = core.standard_prelude(ctx, ["ZCV.Props.C13"])
     rng = ctx.rng
     pk = pkggen.PkgRoot()
-    nschemas = 400 if ctx.thorough() else 90
+    nschemas = 1000 if ctx.thorough() else 250      # (the streams of this check cost about 4 ms per operation)
     maxops = 8 if ctx.thorough() else 5
     try:
         for _ in range(nschemas):
@@ -62,48 +83,89 @@ def run(ctx):
                 continue
             d0 = sdigest(real)
             abss = [n for n, te in elab[1] if te[0] == "abstract"]
-            pkg = None
+            pkg = pkgbad = impname = elab_ext = None
+            pkgxml = {}
             if abss:
-                pkg = pk.add_component([F.TypeD("imp%d" % rng.randint(0, 9), [F.KeyD("k", "string")], implements=rng.choice(abss))])
+                # a component with one more implementer of an abstract type of the schema - preferably one that some
+                # section slot accepts, so that texts can USE the imported type - and a second component that registers
+                # the same implementer and then fails (the second type implements an abstract type nobody declared)
+                slotted = sorted({info[5] for ch in [elab[2][4]] + [te[1][4] for _, te in elab[1] if te[0] == "concrete"]
+                                  for _, info in ch if info[0] == "sect" and info[5] in abss})
+                impname = "imp%d" % rng.randint(0, 9)
+                impd = F.TypeD(impname, [F.KeyD("k", "string")], implements=rng.choice(slotted or abss))
+                pkg = pk.add_component([impd])
+                pkgbad = pk.add_component([impd, F.TypeD("impbroken", [], implements="nosuchabstract")])
+                for p in (pkg, pkgbad):
+                    pkgxml[p] = open(os.path.join(pk.root, p, "component.xml")).read()
+                # what the schema is for a load that has imported the component: texts over THIS vocabulary use the imported type
+                elab_ext = F.elaborate(F.SchemaD(sd.children, sd.types + [impd], sd.keytype, sd.datatype, sd.handler))
+            plan = [rng.choice(KINDS) for _ in range(rng.randint(2, maxops))]
+            if pkg is not None and rng.random() < 0.6:
+                # histories in which a load imports (or tries to import) the implementer and a LATER load uses the imported
+                # section type without the %import line, anywhere among the other operations
+                del plan[6:]        # (the quantifier: up to 8 operations)
+                i = rng.randint(0, len(plan))
+                plan.insert(i, rng.choice(["import-use", "import-use", "import-broken"]))
+                plan.insert(rng.randint(i + 1, len(plan)), "use-unimported")
             seq = []
             nloads = 0
             prev = None
-            for _ in range(rng.randint(2, maxops)):
-                kind = rng.choice(["valid", "valid", "invalid", "import", "overrides", "mutate", "repeat", "sparse"])
-                items = cfggen.gen_items(rng, elab, None, 3, pfill=0.2 if kind == "sparse" else 0.75)
+            for kind in plan:
+                ext = kind in ("import-use", "use-unimported")
+                if ext:
+                    if pkg is None:
+                        continue
+                    items = _items_using(rng, elab_ext, impname)
+                else:
+                    items = cfggen.gen_items(rng, elab, None, 3, pfill=0.2 if kind == "sparse" else 0.75)
                 ovs = ()
                 if kind == "invalid":
                     cfggen.apply_fault(rng, elab, items, rng.choice(cfggen.FAULTS))
                 lines = cfggen.render_lines(rng, items)
+                uses = ext and _uses_type(items, impname)
                 if kind == "repeat" and prev is not None:
-                    lines = list(prev)      # the same text again (defaults are used again for the same omitted keys)
-                if kind == "import":
+                    lines, uses = list(prev[0]), prev[1]      # the same text again (defaults are used again for the same omitted keys)
+                if kind in ("import", "import-broken"):
                     if pkg is None:
                         continue
-                    lines.insert(rng.randint(0, len(lines)), "%import " + pkg)
+                    lines.insert(rng.randint(0, len(lines)), "%import " + (pkg if kind == "import" else pkgbad))
+                if kind == "import-use":
+                    # the %import line anywhere before the first header that names the imported type
+                    first = min([i for i, l in enumerate(lines) if l.strip().lower().startswith("<" + impname)] or [len(lines)])
+                    lines.insert(rng.randint(0, first), "%import " + pkg)
                 if kind == "overrides":
                     ovs = tuple(s for s in ovgen.gen_overrides(rng, elab, items, 2, pweird=0.0) if "=" in s)
-                prev = lines
+                prev = (lines, uses)
                 text = "\n".join(lines) + "\n"
-                out, cfg, h = cfgrun.real_load(real, text, cfgstream.URL, ovs)
+                # a text that uses the imported type without importing it goes through the module-level entry point: the
+                # statement is about the SCHEMA object; a ConfigLoader object that has imported a component keeps it
+                unimported = uses and not any(l.strip().startswith("%import") for l in lines)
+                out, cfg, h = cfgrun.real_load(real, text, cfgstream.URL, ovs, reuse=False if unimported else None)
                 outf, cfgf, hf = cfgrun.real_load(F.load_real(sd), text, cfgstream.URL, ovs)
                 ctx.evaluations += 1
                 nloads += 1
                 ctx.count("op:" + kind)
                 ctx.count("outcome:" + out[0])
+                if uses:
+                    ctx.count("imported-type-used:" + ("without-import" if unimported else "with-import"))
+                    if unimported and any(s["op"].startswith("import") for s in seq):
+                        ctx.count("imported-type-used:without-import-after-an-importing-load")
+                        ctx.nontriv((id(sd), "unimported-use", len(seq)))
                 seq.append({"op": kind, "lines": lines, "overrides": list(ovs), "outcome": out[:3]})
-                rep = {"schema_xml": F.render_xml(sd), "sequence": seq, "fresh_outcome": outf[:3],
-                       "package": F.render_xml(F.SchemaD([], []), "component") if pkg is None else pkg}
-                # an error located in the TEXT is compared with its line; one located in the schema (an unconvertible schema
-                # default) only by kind: the two schema objects may have been delivered as different documents
-                def _loc(o):
-                    return o[1:4] if (len(o) > 3 and o[3] == cfgstream.URL) else [o[1], "located-in-the-schema"]
+                rep = {"schema_xml": F.render_xml(sd), "sequence": list(seq), "fresh_outcome": outf[:3], "packages": pkgxml}
+                # errors located in the TEXT are compared with their line; an error located in the schema (an unconvertible
+                # schema default) only by kind: the two schema objects may have been delivered as different documents - the
+                # reused one as a chain of files (position = line in one of them, with its URL), the fresh one as a single
+                # stream without URL (position = line in the schema document, reported under the URL of the text)
+                def _in_text(o):
+                    return len(o) > 3 and o[3] == cfgstream.URL
                 same = out[0] == outf[0] and (out[0] != "ok" or cfgrun.describe(cfg) == cfgrun.describe(cfgf)) and \
-                    (out[0] != "cfg" or _loc(out) == _loc(outf))
+                    (out[0] != "cfg" or (out[1] == outf[1] and (out[2] == outf[2] or not (_in_text(out) and _in_text(outf)))))
                 if not same:
-                    after_import = any(s["op"] == "import" for s in seq[:-1])
+                    after_import = any(s["op"].startswith("import") for s in seq[:-1])
                     ctx.violate("operation %d (%s) gives %s on the reused schema and %s on a fresh one" % (len(seq), kind, out[:3], outf[:3]),
-                                rep, signature="C13:outcome-depends-on-history" + (":after-import" if after_import else ""))
+                                rep, signature="C13:outcome-depends-on-history" + (":after-import" if after_import else "") +
+                                (":imported-type-used-without-import" if unimported else ""))
                 if kind == "mutate" or rng.random() < 0.6:
                     if cfg is not None:
                         ctx.count("mutated-containers", mutate(cfg))
@@ -111,11 +173,16 @@ def run(ctx):
                 d1 = sdigest(real)
                 if d1 != d0:
                     only_subtypes = (not d1.startswith('undigestible')) and _only_subtypes_differ(F.digest(real), F.digest(F.load_real(sd)))
-                    imp = any(s.get("op") == "import" for s in seq)
+                    imp = any(s.get("op", "").startswith("import") for s in seq)
                     ctx.violate("the schema's own description changed after %d operations" % len(seq), rep,
                                 signature="C13:digest:" + ("abstract-implementers-grow-after-import" if only_subtypes and imp else "changed"))
-                    real = F.load_real(sd)
-                    d0 = sdigest(real)
+                    if only_subtypes and imp:
+                        # (the listed finding) the history goes on with THIS schema object - what the left-over implementers
+                        # do to later loads is part of the property - and further changes are measured against its present state
+                        d0 = d1
+                    else:
+                        real = F.load_real(sd)
+                        d0 = sdigest(real)
             if nloads >= 2:
                 ctx.nontriv((id(sd), len(seq)))
             if seq:
@@ -195,10 +262,13 @@ def _only_subtypes_differ(a, b):
 def _directed(ctx, pk):
     """histories that need particular ingredients: a schema that itself imports a component, loads that %import a
     component the schema already has and then another one, components using dotted datatypes whose names differ only in
-    letter case, a loader object that is reused after a load whose first %import failed.  Every step is compared with
+    letter case, a loader object that is reused after a load whose first %import failed, an implementer of one of the
+    schema's abstract types that an earlier load imported (or tried to import: the component fails after registering it)
+    and a later load uses without '%import'.  Every step is compared with
     the same step on a freshly loaded copy of the schema, and the schema's description with its initial value."""
     import io
     import os
+    import re
     import ZConfig
     from ZConfig.loader import ConfigLoader
 
@@ -253,6 +323,12 @@ def _directed(ctx, pk):
     pbroken = pk.add_component([])
     with open(os.path.join(pk.root, pbroken, "component.xml"), "w") as f:
         f.write("<component><sectiontype name='dirx'><key name='k'/></sectiontype><sectiontype name='diry' implements='nosuchabstract'/></component>")
+    # a component that registers an implementer of the schema's abstract type and then fails
+    pf = pk.add_component([])
+    with open(os.path.join(pk.root, pf, "component.xml"), "w") as f:
+        f.write("<component><sectiontype name='dirf' implements='anyt'><key name='k'/></sectiontype>"
+                "<sectiontype name='dirg' implements='nosuchabstract'/></component>")
+    leaky = ("dotted-datatypes-case", "implementer-imported-then-used-without-import", "implementer-of-failed-component-used")
     histories = {
         "unloadable-dotted-datatype": ["%%import %s\nplain p\n" % pm, "%%import %s\nplain p\n" % pm, "plain q\n",
                                        "%%import %s\nplain r\n" % pm],
@@ -260,8 +336,20 @@ def _directed(ctx, pk):
         "dotted-datatypes-case": ["%%import %s\n<dirc>\nk 5\n</dirc>\n" % pc, "%%import %s\n<dird>\nk 7\n</dird>\n" % pd,
                                   "%%import %s\n%%import %s\n<dird>\nk 1\n</dird>\n<dirc>\nk 2\n</dirc>\n" % (pd, pc)],
         "import-deriving-component": ["<wbase/>\n", "%%import %s\nplain x\n" % pe, "<wbase/>\n<wbase x>\nExtra v\n</wbase>\n"],
+        "implementer-imported-then-used-without-import": ["%%import %s\n<dirc>\nk 5\n</dirc>\n" % pc, "<dirc>\nk 5\n</dirc>\n", "plain x\n",
+                                                          "<dirc a>\n</dirc>\n<dirc b>\n</dirc>\n"],
+        "implementer-of-failed-component-used": ["%%import %s\nplain x\n" % pf, "<dirf/>\n", "plain y\n<dirf n>\nk v\n</dirf>\n"],
         "import-then-use-without-import": ["%%import %s\nplain x\n" % pb, "plain y\n", "%%import %s\n<dira/>\n" % pa],
     }
+    def comps(texts):
+        """the component documents of the generated packages that the texts name"""
+        out = {}
+        for n in pk.names:
+            f = os.path.join(pk.root, n, "component.xml")
+            if any(re.search(r"(?<!\w)%s(?!\w)" % re.escape(n), t) for t in texts) and os.path.exists(f):
+                out[n] = open(f).read()
+        return out
+
     for hname, texts in histories.items():
         reused = fresh()
         d0 = sdigest(reused)
@@ -272,12 +360,12 @@ def _directed(ctx, pk):
             ctx.nontriv(("directed", hname, i))
             if a != b:
                 ctx.violate("history %s, load %d: reused schema gives %r, a fresh copy %r" % (hname, i + 1, a, b),
-                            {"schema_xml": xml, "texts": texts, "step": i + 1, "reused": a, "fresh": b},
+                            {"schema_xml": xml, "texts": texts, "step": i + 1, "reused": a, "fresh": b, "packages": comps(texts + [xml])},
                             signature="C13:directed:" + hname + ":outcome")
                 break
             # (components implementing one of the schema's abstract types change its implementer table: the listed
             #  finding C13-implementers-leak, reported by the main stream; not re-reported here)
-            if hname != "dotted-datatypes-case" and sdigest(reused) != d0:
+            if hname not in leaky and sdigest(reused) != d0:
                 ctx.violate("history %s: the schema's own description changed after load %d" % (hname, i + 1),
                             {"schema_xml": xml, "texts": texts[: i + 1]}, signature="C13:directed:" + hname + ":digest")
                 break
